@@ -80,10 +80,13 @@ def run(ctx):
             ctx.oracle_fail(sig, what, case)
         items.extend(r["items"])
     if C.INCLUDE_DANGLING:
-        r = C.run_case(ctx, dict(C.TRUNCATION_CASE))          # oracle only: outside the model (see its comment)
-        ctx.case(C.TRUNCATION_CASE, True)
-        for sig, what in r["c10"]:
-            ctx.oracle_fail(sig + ":old-tree-build-failed", what, C.TRUNCATION_CASE)
+        for tc in C.TRUNCATION_CASES:
+            tc = dict(tc, contents=dict(C.CONTENT_POOL))
+            r = C.run_case(ctx, tc)
+            ctx.case(tc, True)
+            for sig, what in r["c10"]:
+                ctx.oracle_fail(sig, what, tc)
+            items.extend(r["items"])
     ctx.obligation("oracle:converges-idempotent-linktypes-cache", not any(v.kind == "oracle" for v in ctx.violations),
                    f"{len(items)} real checkouts judged (walk = target, second call None, link kinds, cache bytes, link record)")
     ctx.correspond("checkout", C.IMPORTS, "co_in", "fun i => enc_result (run_in i)", items, shard=60)
